@@ -423,6 +423,75 @@ def misuse_workload(res, rng):
         absorb(mon, res, "misuse-big-hashmap")
 
 
+def bytes_member_workload(res, rng):
+    """Dict keys and values with byte-string members (interface names,
+    addresses): Python assigns byte strings shorter than, as long as and
+    (refused) longer than the member, then uses the structures in every Dict
+    operation"""
+    from ebpfcat.ebpf import Member, Structure
+    from ebpfcat.hashmap import Dict
+    # (structures must be packed: every member at a multiple of its size)
+    kl, vl = rng.choice([4, 8, 16]), rng.choice([8, 16, 32])
+    Key = type("Key", (Structure,), {"name": Member(f"{kl}s"),
+                                     "no": Member("I")})
+    Value = type("Value", (Structure,), {"tag": Member(f"{vl}s"),
+                                         "count": Member("Q")})
+    with kern.session() as sess:
+        ns = {"license": "GPL", "d": Dict(key=Key, value=Value, size=16)}
+
+        def dprogram(self):
+            self.r0 = 2
+            self.exit()
+        ns["program"] = dprogram
+        e = type("VfBytes", (XDP,), ns)()
+        ld = prog.Loaded(e, sess)
+        with sysmon.Monitor(sess) as mon:
+            try:
+                ld.load()
+                keys = []
+                for n in (0, 1, kl // 2, kl - 1, kl, kl + 3):
+                    k = Key()
+                    try:
+                        k.name = bytes(rng.randrange(1, 256)
+                                       for _ in range(n))
+                        k.no = n
+                    except Exception:
+                        res.count("byte_string_assignments_refused")
+                        continue
+                    v = Value()
+                    try:
+                        v.count = n
+                        v.tag = bytes(rng.randrange(1, 256) for _ in range(
+                            rng.choice([0, 1, vl - 1, vl, vl + 1])))
+                    except Exception:
+                        res.count("byte_string_assignments_refused")
+                    res.count("structures_with_byte_string_members")
+                    try:
+                        e.d[k] = v
+                        keys.append(k)
+                        _ = e.d[k].count
+                        _ = list(e.d)
+                        _ = list(e.d.items())
+                    except sysmon.Refused:
+                        pass
+                    except (KeyError, struct.error, ValueError):
+                        res.count("dict_operations_that_raised")
+                for k in keys[::2]:
+                    try:
+                        e.d.pop(k, None)
+                    except sysmon.Refused:
+                        pass
+                for k in keys[1::2]:
+                    try:
+                        del e.d[k]
+                    except (KeyError, sysmon.Refused):
+                        pass
+            except OSError:
+                res.count("bytes_dict_load_failed")
+        absorb(mon, res, "byte-string-members")
+        ld.close()
+
+
 def run_shard(params):
     res = Result()
     if params.get("valgrind"):
@@ -469,6 +538,7 @@ def run_shard(params):
     for _ in range(3):
         guarded(percpu_instances_workload, "percpu-instances")
     guarded(misuse_workload, "misuse")
+    guarded(bytes_member_workload, "byte-string-members")
     guarded(format_lookup_workload, "format-lookup")
     for _ in range(3):
         guarded(closed_program_workload, "closed-program")
